@@ -270,6 +270,33 @@ def setSegment [Zero K] [Add K] [Mul K] [DecidableEq K] (m : Mirror K) (nseg id 
 def getSegment [Zero K] (m : Mirror K) (nseg id : Nat) : K × K × K :=
   ((acts m).getD id 0, (acts m).getD (id + nseg) 0, (acts m).getD (id + 2 * nseg) 0)
 
+/-! ### The influence functions of a segmented mirror (`SegmentedDeformableMirror.segments.setter`)
+
+For every segment `s` (one value per grid point) the tip mode is `s·x − β·s` with
+`β = (mean(s·x·s) − mean(s)·mean(s·x)) / (mean(s²) − mean(s)²)` (no subtraction when the
+denominator is zero), the tilt mode the same with `y`; the influence functions are
+`segments + tip + tilt`: the columns `[s₀ … | tip₀ … | tilt₀ …]`. -/
+
+/-- `np.mean(v)` -/
+def mean [Zero K] [Add K] [Div K] [NatCast K] (v : List K) : K := v.sum / (v.length : K)
+
+/-- the tip (`c = grid.x`) or tilt (`c = grid.y`) mode of one segment `s` -/
+def tiltMode [Zero K] [Add K] [Sub K] [Mul K] [Div K] [NatCast K] [DecidableEq K] (s c : List K) :
+    List K :=
+  let ms := mean s
+  let norm := mean (s.map fun a => a * a) - ms * ms
+  let t := List.zipWith (· * ·) s c
+  if norm = 0 then t else
+  let β := (mean (List.zipWith (· * ·) t s) - ms * mean t) / norm
+  List.zipWith (fun ti si => ti - β * si) t s
+
+/-- the dense table (`npix` rows) of the influence functions built from the segments (given as
+columns) and the grid coordinates -/
+def segInfl [Zero K] [Add K] [Sub K] [Mul K] [Div K] [NatCast K] [DecidableEq K]
+    (segs : List (List K)) (xs ys : List K) : List (List K) :=
+  let cols := segs ++ segs.map (tiltMode · xs) ++ segs.map (tiltMode · ys)
+  (List.range xs.length).map fun i => cols.map fun c => c.getD i 0
+
 /-! ### Phase read-outs: `phase_for`, `forward`, `backward`
 
 `phase_for(λ) = 2 · surface · 2π/λ`, `forward: E ↦ E · exp(2i·k·surface)`, `backward: E ↦ E ·
